@@ -1,39 +1,67 @@
 import SMGo.Proofs.ISAValOpenModel
+import SMGo.Proofs.ISAValSealAny
 set_option linter.unusedSimpArgs false
 namespace SMGo.Proofs.ISAVal
 open SMGo SMGo.Model.ISAVal SMGo.Model.GCM SMGo.Proofs.GCM SMGo.Spec.GCM SMGo.Proofs.ISATouch
 open SMGo.Model.ISA (Reg Opd Instr)
 
-theorem lookup_ret (t : Nat) (nonce ct aad : List Nat) (v : Nat) : lookup (openFrame t nonce ct aad v) "ret1" = some v := by
+theorem lookup_ret (cp t : Nat) (nonce ct aad : List Nat) (v : Nat) : lookup (openFrame cp t nonce ct aad v) "ret1" = some v := by
   simp [openFrame, lookup]
 
-/-- **`openAsm` = SP 800-38D Algorithm 5 (GCM-AD) over SM4, for 12-byte nonces**: run from its entry state the listing returns; if
-    the specification rejects (tag mismatch) the result slot is 0 and the destination is UNTOUCHED; otherwise the result slot is 1
-    and the destination starts with the plaintext (the rest of the destination keeps its old contents) -/
-theorem openAsm_run12 (g v k rk : List Nat) (t : Nat) (dst nonce ct aad tmp : List Nat) (r0 : Nat)
+theorem open_j0Labels : J0Labels openR :=
+  ⟨label_findPc open_labels (name := "J0.loopBy4") (by decide), label_findPc open_labels (name := "J0.loopBy1") (by decide),
+   label_findPc open_labels (name := "J0.last") (by decide), label_findPc open_labels (name := "J0.copy8") (by decide),
+   label_findPc open_labels (name := "J0.copy4") (by decide), label_findPc open_labels (name := "J0.copy2") (by decide),
+   label_findPc open_labels (name := "J0.copy1") (by decide), label_findPc open_labels (name := "J0.copyEnd") (by decide),
+   label_findPc open_labels (name := "J0.doneJ0") (by decide), label_findPc open_labels (name := "J0.endJ0") (by decide)⟩
+
+/-- **`openAsm`, instructions 0 … 1498, on its entry state**, for ANY nonce and any additional data -/
+theorem open_prefix_any (g v k rk : List Nat) (t : Nat) (dst nonce ct aad tmp : List Nat) (r0 : Nat)
     (hG : g.length = 16) (hV : v.length = 32) (hK : k.length = 8) (hrk : rk.length = 32) (hrkb : ∀ x ∈ rk, x < 2 ^ 32)
-    (hn : nonce.length = 12) (hnb : ∀ x ∈ nonce, x < 2 ^ 8) (hab : ∀ x ∈ aad, x < 2 ^ 8) (hall : aad.length < 2 ^ 32)
+    (hnl : nonce.length < 2 ^ 32) (hnb : ∀ x ∈ nonce, x < 2 ^ 8) (hab : ∀ x ∈ aad, x < 2 ^ 8) (hall : aad.length < 2 ^ 32)
+    (htmp : tmp.length = 32) :
+    ∃ s5 N, N ≤ 34 * (nonce.length / 16) + 34 * (aad.length / 16) + 1700 ∧
+      Reach openR 0 (openState g v k rk t dst nonce ct aad tmp r0) 1499 s5 N ∧
+      AfterPre (fun b => fmem "cipher" false rk dst nonce ct aad b) rk nonce aad (j0N rk nonce)
+        81604378624 94489280512 90194313216 s5 ∧ s5.frame = (openState g v k rk t dst nonce ct aad tmp r0).frame := by
+  have e := fenv_of (openState g v k rk t dst nonce ct aad tmp r0) "cipher" false rk dst nonce ct aad tmp (open_mem ..) (open_syms ..)
+    (by simp [openState, mkState, lookup]; rfl) (by simp [openState, mkState, lookup]; rfl) (by simp [openState, mkState, lookup])
+    (by simp [openState, mkState, lookup]; rfl) (by simp [openState, mkState, lookup]; rfl) (by simp [openState, mkState, lookup])
+    hrk hnl hall
+  exact prefix_any openR open_prefix_slices ⟨open_lJ, open_sPreLabels, open_copyLabels⟩ open_j0Labels _ hG hV hK rk nonce aad _ _ _ e _
+    (memFam_fmem "cipher" false rk dst nonce ct aad hrk hnl hall) tmp htmp (open_mem ..) hrk hrkb hnb (by omega) (by omega) hab
+    (by omega) (by decide)
+
+/-- **`openAsm` = SP 800-38D Algorithm 5 (GCM-AD) over SM4, for EVERY nonce length**: run from its entry state the listing returns;
+    if the specification rejects (tag mismatch) the result slot is 0 and the destination is UNTOUCHED; otherwise the result slot
+    is 1 and the destination starts with the plaintext (the rest of the destination keeps its old contents) -/
+theorem openAsm_run (g v k rk : List Nat) (t : Nat) (dst nonce ct aad tmp : List Nat) (r0 : Nat)
+    (hG : g.length = 16) (hV : v.length = 32) (hK : k.length = 8) (hrk : rk.length = 32) (hrkb : ∀ x ∈ rk, x < 2 ^ 32)
+    (hnl : nonce.length < 2 ^ 32) (hnb : ∀ x ∈ nonce, x < 2 ^ 8) (hab : ∀ x ∈ aad, x < 2 ^ 8) (hall : aad.length < 2 ^ 32)
     (hcb : ∀ x ∈ ct, x < 2 ^ 8) (hcl : ct.length < 2 ^ 32) (ht : t ≤ 16) (htc : t ≤ ct.length) (htmp : tmp.length = 32)
     (hdl : ct.length - t ≤ dst.length) (hdl32 : dst.length < 2 ^ 32) (fuel : Nat)
-    (hfuel : 34 * (aad.length / 16) + 34 * ((ct.length - t) / 16) + 700 * ((ct.length - t) / 256) + 6500 < fuel) :
+    (hfuel : 34 * (nonce.length / 16) + 34 * (aad.length / 16) + 34 * ((ct.length - t) / 16) + 700 * ((ct.length - t) / 256) + 7000 < fuel) :
     runOpen fuel (openState g v k rk t dst nonce ct aad tmp r0)
       = .ok (match openGCM (encE rk) t (toB nonce) (toB ct) (toB aad) with
              | some p => (1, spliceAt dst 0 (p.map (·.toNat)))
              | none => (0, dst)) := by
-  obtain ⟨s', N, hN, r1, hres⟩ := open_reach12 g v k rk t dst nonce ct aad tmp r0 hG hV hK hrk hrkb hn hnb hab hall hcb hcl ht htc htmp hdl hdl32
-    ((ct.length - t) / 16 + 1) (fuelNeed_le16 _)
+  obtain ⟨s5, N5, hN5, r5, ap, hf5⟩ := open_prefix_any g v k rk t dst nonce ct aad tmp r0 hG hV hK hrk hrkb hnl hnb hab hall htmp
+  obtain ⟨s9, N9, hN9, r9, av⟩ := open_verdict_after g v k rk t dst nonce ct aad tmp r0 hrk hnl hall hcb hcl ht htc _ s5 ap hf5
+  obtain ⟨s', N, hN, r1, hres⟩ := open_after_verdict g v k rk t dst nonce ct aad tmp r0 hrk hrkb hcb hcl ht htc hdl hdl32 _
+    (j0N_length rk nonce) (j0N_bytes rk nonce hnb) s9 av ((ct.length - t) / 16 + 1) (fuelNeed_le16 _)
   have sRet : Slice openR (5556 + 2) [ins .RET [] 0] := Slice.right (a := [_, _]) (b := [_]) open_slices'.fin
-  have hrun := run_of_reach r1 sRet fuel (by omega)
-  have hmod := open_model12 rk nonce ct aad t ((ct.length - t) / 16 + 1) hn hnb hcb hab ht htc (fuelNeed_le16 _)
+  have hrun := run_of_reach ((r5.trans r9).trans r1) sRet fuel (by omega)
+  have hmod := open_modelJ rk (j0N rk nonce) nonce ct aad t ((ct.length - t) / 16 + 1) (j0N_length rk nonce) (j0N_bytes rk nonce hnb)
+    (j0N_model rk nonce hnb) hcb hab ht htc (fuelNeed_le16 _)
   rw [open_eq_spec (encE_length rk)] at hmod
   unfold runOpen run
   rw [openR_ok]
   simp only [bind, Except.bind]
   rw [hrun, hmod]
-  by_cases h0 : orBytes (xorN ((openTagN rk nonce ct aad t).take t) (ct.drop (ct.length - t))) = 0
+  by_cases h0 : orBytes (xorN ((openTagJ rk (j0N rk nonce) ct aad t).take t) (ct.drop (ct.length - t))) = 0
   · rw [if_pos h0] at hres ⊢
     simp only [hres.1, hres.2, lookup_ret]
-    have hb : ∀ x ∈ openOutN rk nonce ct t ((ct.length - t) / 16 + 1), x < 2 ^ 8 :=
+    have hb : ∀ x ∈ openOutJ rk (j0N rk nonce) ct t ((ct.length - t) / 16 + 1), x < 2 ^ 8 :=
       ladN_bytes _ _ _ _ _ _ _ _ (fun x hx => hcb x (List.mem_of_mem_take hx))
     rw [toNat_toB _ hb]
     rfl
@@ -42,4 +70,4 @@ theorem openAsm_run12 (g v k rk : List Nat) (t : Nat) (dst nonce ct aad tmp : Li
     rfl
 
 end SMGo.Proofs.ISAVal
-#print axioms SMGo.Proofs.ISAVal.openAsm_run12
+#print axioms SMGo.Proofs.ISAVal.openAsm_run
